@@ -322,7 +322,7 @@ Proof.
         -- exists (g_ph g). rewrite gph_id. split; [exact G|]. split; [apply qframe_refl|]. split; [|split; [|exact Hr]].
            ++ intros r0. unfold wq_items. cbn. rewrite Ef, Hc2, Hp. simpl. lia.
            ++ split; cbn; [intros; contradiction|rewrite Emode; auto].
-        -- rewrite <- Ef.
+        -- assert (Ef' : wq_fast q = x0 :: t0) by exact Ef. rewrite <- Ef' in *. clear Ef'.
            assert (Hrel : forall r0, (occ r0 ([] ++ wq_fast q) + occ r0 (g_ph g) = occ r0 (phl s g))%nat).
            { intros r0. unfold phl. rewrite Hpw, Hk, (getm_some _ _ _ Hm), Hperm, Hitems, Hp. simpl. lia. }
            assert (Hpre0 : forall x, In x (wq_fast q) -> occ x (g_pre g) = O) by (intros; rewrite Hq; reflexivity).
@@ -336,11 +336,11 @@ Proof.
            exists ph'.
            destruct (N.of_nat (length kept) <? wq_len q) eqn:Ek.
            ++ split; [exact P1|]. split; [exact P2|]. split; [|split; [|exact Hr']].
-              ** intros r0. unfold wq_items. cbn. rewrite Hc2, Hitems, !occ_app. specialize (Hrelk r0). simpl. lia.
+              ** intros r0. unfold wq_items. cbn. rewrite Hc2, !occ_app. specialize (Hrelk r0). simpl. lia.
               ** split; cbn; [intros; contradiction|rewrite Emode; auto].
            ++ destruct (wq_cap q <=? 128).
               ** split; [exact P1|]. split; [exact P2|]. split; [|split; [|exact Hr']].
-                 --- intros r0. unfold wq_items. cbn. rewrite Hc2, Hitems, !occ_app. specialize (Hrelk r0). simpl. lia.
+                 --- intros r0. unfold wq_items. cbn. rewrite Hc2, !occ_app. specialize (Hrelk r0). simpl. lia.
                  --- split; cbn; [intros Hg; exfalso; apply (grow_cap_ne0 _ Ec Hg)|rewrite Emode; auto].
               ** apply N.ltb_ge in Ek. unfold wq_len in Ek. rewrite Hp in P4. simpl in P4.
                  assert (Hph0 : ph' = []) by (apply length_zero_nil; lia). subst ph'.
